@@ -3,6 +3,7 @@
 package nsqd
 
 import (
+	"bufio"
 	"bytes"
 
 	"github.com/nsqio/nsq/internal/protocol"
@@ -85,3 +86,67 @@ func VerifC07_Framing() {
 	verifrt.Assert(bytes.Equal(out[8:], data), "frame-data")
 	verifrt.Reach("framed", len(data) > 0)
 }
+
+// Frames on one connection are atomic: the delivery pump (SendMessage) and the command loop (Send
+// of a response) write to the same connection from two goroutines; whatever the interleaving -
+// including being descheduled in the middle of a socket write - the byte stream is a sequence of
+// whole frames carrying exactly the message encoding and the response.
+func VerifC07_FrameAtomicity() {
+	var st *verifChan
+	var cl *clientV2
+	var conn *verifConn
+	var m *Message
+	verifrt.Atomic(func() {
+		verifConcreteIDs, verifIDSeq = true, 0
+		st = verifNewChan(verifOpts(), "ch")
+		cl = st.addClient(1)
+		conn = st.conns[0]
+		conn.yieldOnWrite = true
+		cl.Writer = bufio.NewWriterSize(conn, 16)
+		m = verifMsg("m", 0)
+		m.Body = verifrt.BytesN("body", 6)
+	})
+	p := &protocolV2{nsqd: st.n}
+	verifrt.Go("pump", func() { p.SendMessage(cl, m) })
+	verifrt.Go("ioloop", func() { p.Send(cl, frameTypeResponse, []byte("OK")) })
+	verifrt.Join()
+	cl.writeLock.Lock()
+	cl.Flush()
+	cl.writeLock.Unlock()
+	out := conn.out.data
+	var enc bytes.Buffer
+	m.WriteTo(&enc)
+	want := enc.Bytes()
+	// parse frames
+	pos, frames, sawMsg, sawResp := 0, 0, 0, 0
+	okStream := true
+	for pos < len(out) {
+		if len(out)-pos < 8 {
+			okStream = false
+			break
+		}
+		size := int(uint32(out[pos])<<24 | uint32(out[pos+1])<<16 | uint32(out[pos+2])<<8 | uint32(out[pos+3]))
+		typ := int(uint32(out[pos+4])<<24 | uint32(out[pos+5])<<16 | uint32(out[pos+6])<<8 | uint32(out[pos+7]))
+		if size < 4 || pos+4+size > len(out) {
+			okStream = false
+			break
+		}
+		data := out[pos+8 : pos+4+size]
+		if typ == int(frameTypeMessage) && bytes.Equal(data, want) {
+			sawMsg++
+		} else if typ == int(frameTypeResponse) && bytes.Equal(data, []byte("OK")) {
+			sawResp++
+		} else {
+			okStream = false
+		}
+		frames++
+		pos += 4 + size
+	}
+	verifrt.Assert(okStream, "connection-stream-is-whole-frames")
+	verifrt.Assert(frames == 2 && sawMsg == 1 && sawResp == 1, "message-frame-and-response-frame-each-intact-once")
+	verifrt.Reach("both-frames-written", len(out) > 40)
+}
+
+// Text /mpub bodies (shares the C10 harness): every non-empty newline-separated record of the
+// HTTP body becomes one message, byte for byte (CR, NUL, any value).
+func VerifC07_HTTPTextMpubBodies() { verifrt.Atomic(verifC10MpubText) }
